@@ -85,6 +85,7 @@ class NaniteFitModel:
         for attr in [
             "get_parameter_defaults",
             "model_doc",
+            "model_func",
             "model_key",
             "model_name",
             "parameter_keys",
@@ -150,6 +151,14 @@ class NaniteFitModel:
         p_def = list(self.module.get_parameter_defaults().keys())
         p_arg = list(inspect.signature(
             self.module.model_func).parameters.keys())
+        if len(p_def) < len(self.module.parameter_keys):
+            raise ModelImplementationError(
+                "'get_parameter_defaults' returns fewer parameters than "
+                + f"listed in 'parameter_keys' for model '{model_key}'!")
+        if len(p_arg) < len(self.module.parameter_keys) + 1:
+            raise ModelImplementationError(
+                "The model function accepts fewer parameters than "
+                + f"listed in 'parameter_keys' for model '{model_key}'!")
         for ii, key in enumerate(self.module.parameter_keys):
             if key != p_def[ii]:
                 raise ModelImplementationError(
